@@ -584,6 +584,8 @@ def check_olpc(ctx, chains, rule_net, rule_ctx):
                                 eq_edges.append((e, tb))
                     if fa[0] == "int" and fa[2] == ord(q) and gb.blocks[e[0]]["term"].get("discr_ty") == "char":
                         eq_edges.append((e, tb))
+                    if fa[0] == "intin" and ord(q) in fa[2] and set(fa[2]) <= {34, 92} and gb.blocks[e[0]]["term"].get("discr_ty") == "char":
+                        eq_edges.append((e, tb))        # `'"' | '\\' => ..`: one edge for both characters
                 if not eq_edges:
                     keep = False
                     why.append("no test for %r" % q)
@@ -643,6 +645,8 @@ def check_olpc(ctx, chains, rule_net, rule_ctx):
             n_scan_tests = 0
             for (e, tb, fa) in gb.all_edge_facts():
                 cm = as_cmp(fa)
+                if fa[0] == "intin" and set(fa[2]) <= {34, 92}:
+                    cm = ("Eq", fa[1], {"const": {"int": fa[2][0], "ty": "int", "repr": str(fa[2][0])}})
                 if not (cm and cm[0] == "Eq"):
                     continue
                 for (u, v) in ((cm[1], cm[2]), (cm[2], cm[1])):
